@@ -139,7 +139,7 @@ Section SPV.
     (1 <=? required)%Z && (Z.of_nat (length (p_headers p)) =? 80 * required)%Z &&
     match chunks 80 (p_headers p) with
     | [] => false
-    | h0 :: _ as hs =>
+    | (h0 :: _) as hs =>
         let root := hdr_root h0 in
         merkle_ok txh (p_merkle p) (p_index p) root
         && merkle_ok (sha256 (p_cb_preimage p)) (p_cb_proof p) 0 root
